@@ -13,6 +13,7 @@
 ***************************************/
 #include "../common/allocations.h"  /* ZSTD_customMalloc, ZSTD_customCalloc, ZSTD_customFree */
 #include "../common/zstd_deps.h"  /* INT_MAX, ZSTD_memset, ZSTD_memcpy */
+#include "../common/zstd_verif.h"  /* ZSTD_VERIF_PROBE : inert unless ZSTD_VERIF_SIM */
 #include "../common/mem.h"
 #include "hist.h"           /* HIST_countFast_wksp */
 #define FSE_STATIC_LINKING_ONLY   /* FSE_encodeSymbol */
@@ -2142,6 +2143,9 @@ static size_t ZSTD_resetCCtx_internal(ZSTD_CCtx* zc,
         int const dictTooBig = ZSTD_dictTooBig(loadedDictSize);
         ZSTD_indexResetPolicy_e needsIndexReset =
             (indexTooClose || dictTooBig || !zc->initialized) ? ZSTDirp_reset : ZSTDirp_continue;
+#ifdef ZSTD_VERIF_SIM
+        if (indexTooClose) ZSTD_VERIF_PROBE(ZSTD_VP_indexTooCloseReset);
+#endif
 
         size_t const neededSpace =
             ZSTD_estimateCCtxSize_usingCCtxParams_internal(
@@ -2494,9 +2498,11 @@ static size_t ZSTD_resetCCtx_usingCDict(ZSTD_CCtx* cctx,
                 (unsigned)pledgedSrcSize);
 
     if (ZSTD_shouldAttachDict(cdict, params, pledgedSrcSize)) {
+        ZSTD_VERIF_PROBE(ZSTD_VP_cdictAttach);
         return ZSTD_resetCCtx_byAttachingCDict(
             cctx, cdict, *params, pledgedSrcSize, zbuff);
     } else {
+        ZSTD_VERIF_PROBE(ZSTD_VP_cdictCopy);
         return ZSTD_resetCCtx_byCopyingCDict(
             cctx, cdict, *params, pledgedSrcSize, zbuff);
     }
@@ -4481,6 +4487,7 @@ static void ZSTD_overflowCorrectIfNeeded(ZSTD_matchState_t* ms,
     U32 const maxDist = (U32)1 << params->cParams.windowLog;
     if (ZSTD_window_needOverflowCorrection(ms->window, cycleLog, maxDist, ms->loadedDictEnd, ip, iend)) {
         U32 const correction = ZSTD_window_correctOverflow(&ms->window, cycleLog, maxDist, ip);
+        ZSTD_VERIF_PROBE(ZSTD_VP_overflowCorrection);
         ZSTD_STATIC_ASSERT(ZSTD_CHAINLOG_MAX <= 30);
         ZSTD_STATIC_ASSERT(ZSTD_WINDOWLOG_MAX_32 <= 30);
         ZSTD_STATIC_ASSERT(ZSTD_WINDOWLOG_MAX <= 31);
@@ -6078,8 +6085,8 @@ static size_t ZSTD_compressStream_generic(ZSTD_CStream* zcs,
                 || zcs->appliedParams.outBufferMode == ZSTD_bm_stable)  /* OR we are allowed to return dstSizeTooSmall */
               && (zcs->inBuffPos == 0) ) {
                 /* shortcut to compression pass directly into output buffer */
-                size_t const cSize = ZSTD_compressEnd_public(zcs,
-                                                op, oend-op, ip, iend-ip);
+                size_t const cSize = (ZSTD_VERIF_PROBE(ZSTD_VP_cstream_endShortcut), ZSTD_compressEnd_public(zcs,
+                                                op, oend-op, ip, iend-ip));
                 DEBUGLOG(4, "ZSTD_compressEnd : cSize=%u", (unsigned)cSize);
                 FORWARD_IF_ERROR(cSize, "ZSTD_compressEnd failed");
                 ip = iend;
